@@ -124,6 +124,10 @@ func (ci *crdIpam) handleFIPUnassign(obj interface{}) error {
 	if !ok {
 		return fmt.Errorf("%s already been released", ipStr)
 	}
+	if _, reserved := allocated.Labels[constant.ReserveFIPLabel]; !reserved {
+		// a stale event: the reservation is gone and the ip has been allocated to someone else since
+		return fmt.Errorf("%s is not reserved, it is allocated to %s", ipStr, allocated.Key)
+	}
 	ci.syncCacheAfterDel(allocated)
 	glog.Infof("released reserved ip %s", ipStr)
 	return nil
